@@ -194,6 +194,9 @@ class ReduceSumPlugin(PrimitiveLeafPlugin):
         producer_getter = getattr(operand_val, "producer", lambda: None)
         producer = producer_getter() if callable(producer_getter) else None
         producer_op_type = str(getattr(producer, "op_type", ""))
+        if (getattr(producer, "domain", "") or "") != "":
+            # the call node of an @onnx_function may carry the same name
+            producer_op_type = ""
         producer_inputs = tuple(getattr(producer, "inputs", ()))
 
         target_base: Any | None = None
@@ -213,7 +216,7 @@ class ReduceSumPlugin(PrimitiveLeafPlugin):
         elif producer_op_type == "Pow" and len(producer_inputs) >= 2:
             base, exponent = producer_inputs[:2]
             exponent_scalar = _const_scalar(exponent)
-            if exponent_scalar is not None and np.allclose(exponent_scalar, 2):
+            if exponent_scalar is not None and float(exponent_scalar) == 2.0:
                 target_base = base
                 op_name = "ReduceSumSquare"
 
